@@ -82,7 +82,8 @@ def build(model):
     elif k == "LeakyReLU":
       x = L.LeakyReLU(alpha=0.125, name=l["name"])(x)
     elif k == "BatchNormalization":
-      x = L.BatchNormalization(name=l["name"])(x)
+      plain = sum(map(ord, l["name"])) % 2 == 0 and len(model) == 3
+      x = L.BatchNormalization(name=l["name"], center=not plain, scale=not plain)(x)
   return tf.keras.Model(i, x)
 
 
@@ -204,6 +205,10 @@ def main():
       ws = lay.get_weights()
       if ws:
         lay.set_weights([np.random.RandomState(rnd.randint(0, 10 ** 6)).uniform(-1, 1, w.shape).astype(np.float32) for w in ws])
+    # histories: some layers are frozen before the conversion (their weights still have to be carried over)
+    for lay in km.layers:
+      if lay.get_weights() and rnd.random() < 0.3:
+        lay.trainable = False
     json0 = km.to_json()
     w0 = [w.copy() for w in km.get_weights()]
     transfer = rnd.random() < 0.7
